@@ -1,7 +1,7 @@
 """C08 — no false alarms on calls the configuration certainly accepts."""
 import json
 
-from lib import argscorr, calle2e
+from lib import argscorr, calle2e, callscen
 
 MANIFEST = {
     "text": "Theorems C08_* (Coq) prove that the repaired checkArgType accepts every argument all of whose possible "
@@ -19,7 +19,7 @@ RULE = ("as C07, with programs biased to valid calls (97%) so that most rows lie
 TRUSTED = ["argument types of the generated expressions are known by construction (literals, ternaries)"]
 ASSUMPTIONS = ["a certainly-fitting call has an accepted count and every possible class of every argument admitted"]
 PARTIAL = ["C08_pinned_refuted: Union<Integer String> rejected for Integer|String|Symbol by the pre-fix code (fixed)"]
-PARTS = [argscorr.part_check_arg_type, argscorr.part_check_args, calle2e.part_e2e("C08")]
+PARTS = [argscorr.part_check_arg_type, argscorr.part_check_args, calle2e.part_e2e("C08"), callscen.part_scenarios("C08")]
 
 
 def replay(path):
